@@ -123,8 +123,13 @@ def gen_rules(rng, dst, dst2, helper):
             # the Date header (possibly with a zone abbreviation) is parsed before a file time is shown
             conds = [('date', [b'Date'], b'.*', False), rng.choice([('datemod', [b'*mtime'], b'.*', False), ('datecre', [b'*ctime'], b'.*', False)])] + conds[:1]
         acts = []
-        a = rng.randrange(10)
-        if a == 8:
+        a = rng.randrange(12)
+        if a == 10:
+            # a flags action after an action that moves the message: wherever the pair takes the message, -d says so
+            acts = [('move', dst2), ('flags', 'T')]
+        elif a == 11:
+            acts = [('label', b'lab%d' % r), ('move', dst), ('flags', 'F')]
+        elif a == 8:
             acts = [('add-header', (b'Subject', b'rewritten %d' % r)), ('move', dst)]
         elif a == 9:
             acts = [('label', b'lab%d' % r)]
@@ -171,6 +176,8 @@ def act_text(a):
         return b'move "%s"' % arg.encode()
     if kind == 'flag':
         return b'flag ' + arg.encode()
+    if kind == 'flags':
+        return b'flags "%s"' % arg.encode()
     if kind == 'label':
         return b'label "%s"' % arg
     if kind == 'discard':
@@ -241,7 +248,7 @@ def expected_pairs(ri, cand, loc):
         while t < so and v[t] in b' \t':
             t += 1
         caret = width(v[t:so], loc)
-        out.append((ri + 2, key, v[t:le], caret, caret + max(width(v[so:eo], loc), 2) - 1))
+        out.append((ri + 2 + _off[0], key, v[t:le], caret, caret + max(width(v[so:eo], loc), 2) - 1))
     return out
 
 
@@ -287,6 +294,9 @@ def parse_blocks(out, paths, conf):
     return res
 
 
+_off = [0]          # lines the rules are shifted down by what precedes them in the block
+
+
 def one_round(ck, rng, stats, samples):
     loc = rng.choice(['C', 'C.UTF-8'])
     tzname, tzoff = rng.choice([(None, 0), (None, 0), ('JST-9', 9 * 3600), ('NZST-12', 12 * 3600), ('EST5', -5 * 3600)])     # fixed offsets: no DST rules needed
@@ -295,6 +305,15 @@ def one_round(ck, rng, stats, samples):
     helper = common.rec_helper()
     rules = gen_rules(rng, dst, dst2, helper)
     conf_lines = [b'maildir "%s" {' % src.encode()]
+    # what precedes the rules must not disturb the line numbers of the explanations: comments, empty lines, a rule (that never
+    # matches) whose string or pattern continues on the next line - with and without a backslash in front of the line break
+    pre = rng.choice([None, None, b'\t# a comment', b'', b'\tmatch header "X-Never" /zzz/ exec { "sh" "-c" "true \\\n\t\ttrue" }',
+                      b'\tmatch header "X-Never" /zzz/ exec { "sh" "-c" "true\n\t\ttrue" }', b'\tmatch header "X-Never" /zzz\\\nyyy/ move "%s"' % dst.encode(),
+                      b'\tmatch header "X-Never" /zzz/ exec { "a\\\n" "b\\\n" "c" } # three'])
+    _off[0] = 0
+    if pre is not None:
+        conf_lines.append(pre)
+        _off[0] = pre.count(b'\n') + 1
     for r in rules:
         conf_lines.append(b'\tmatch ' + b' and '.join(cond_text(c) for c in r['conds']) + b' ' + b' '.join(act_text(a) for a in r['acts']))
     conf_lines.append(b'}')
@@ -379,7 +398,7 @@ def one_round(ck, rng, stats, samples):
             # find the candidate this entry shows
             cand = None
             for ri, cands in entries:
-                if ri + 2 != lno:
+                if ri + 2 + _off[0] != lno:
                     continue
                 for cd in cands:
                     x = expected_pairs(ri, cd, loc)
